@@ -125,10 +125,10 @@ impl std::ops::Deref for ValidatedBlockHeader {
 }
 
 impl ValidatedBlockHeader {
-	/// Checks that the header correctly builds on previous_header: the claimed work differential
-	/// matches the actual PoW and the difficulty transition is possible, i.e., within 4x.
-	fn check_builds_on(
-		&self, previous_header: &ValidatedBlockHeader, network: Network,
+	/// Checks that the header connects to previous_header: it commits to its hash, is exactly one
+	/// block higher and the claimed work differential matches the actual PoW.
+	pub(crate) fn check_connects_to(
+		&self, previous_header: &ValidatedBlockHeader,
 	) -> BlockSourceResult<()> {
 		if self.header.prev_blockhash != previous_header.block_hash {
 			return Err(BlockSourceError::persistent("invalid previous block hash"));
@@ -142,6 +142,16 @@ impl ValidatedBlockHeader {
 		if self.chainwork != previous_header.chainwork + work {
 			return Err(BlockSourceError::persistent("invalid chainwork"));
 		}
+
+		Ok(())
+	}
+
+	/// Checks that the header correctly builds on previous_header: the claimed work differential
+	/// matches the actual PoW and the difficulty transition is possible, i.e., within 4x.
+	fn check_builds_on(
+		&self, previous_header: &ValidatedBlockHeader, network: Network,
+	) -> BlockSourceResult<()> {
+		self.check_connects_to(previous_header)?;
 
 		if let Network::Bitcoin = network {
 			if self.height % 2016 == 0 {
